@@ -71,10 +71,13 @@ pub struct EncOpts {
 	/// parses the names as numbers, so one level / column may be spread over several folders. Not claimed
 	/// to be part of the published layout — only used where consistency of what the reader returns is checked.
 	pub alt_spellings: bool,
+	/// a de-duplicating tile cache: some tiles are symbolic links to a blob stored elsewhere under the root
+	/// (every tile still reads under its own z/x/y name)
+	pub symlinks: bool,
 }
 impl EncOpts {
 	pub fn random(rng: &mut Rng) -> EncOpts {
-		EncOpts { meta_name: *rng.pick(&["tiles.json", "meta.json", "metadata.json"]), no_meta: rng.chance(0.2), stray_files: rng.chance(0.4), alt_spellings: false }
+		EncOpts { meta_name: *rng.pick(&["tiles.json", "meta.json", "metadata.json"]), no_meta: rng.chance(0.2), stray_files: rng.chance(0.4), alt_spellings: false, symlinks: rng.chance(0.3) }
 	}
 }
 
@@ -103,7 +106,23 @@ pub fn encode(ts: &TileSet, root: &Path, o: &EncOpts) -> Result<(), String> {
 		let (vz, vx, vy) = if o.alt_spellings { (if k.1 <= mid.get(&k.0).cloned().unwrap_or(0) { 0 } else { 1 + k.1 % 2 }, k.2 % 5, (k.1 + k.2) % 7) } else { (0, 0, 0) };
 		let dir = root.join(spell(k.0 as u32, vz)).join(spell(k.1, if vx == 1 { 1 } else { 0 }));
 		std::fs::create_dir_all(&dir).map_err(|e| e.to_string())?;
-		std::fs::write(dir.join(format!("{}{}{}", spell(k.2, if vy == 1 { 1 } else { 0 }), ext, ts.comp.ext())), v).map_err(|e| e.to_string())?;
+		let file = dir.join(format!("{}{}{}", spell(k.2, if vy == 1 { 1 } else { 0 }), ext, ts.comp.ext()));
+		#[cfg(unix)]
+		if o.symlinks && (k.1 + k.2 * 3) % 4 != 2 {
+			// the blob lives in a pool folder, the tile name is a link to it (absolute target)
+			let pool = root.join("pool");
+			std::fs::create_dir_all(&pool).map_err(|e| e.to_string())?;
+			let blob = pool.join(format!("{:016x}", crate::rng::fnv(v) ^ (v.len() as u64)));
+			if !blob.exists() {
+				std::fs::write(&blob, v).map_err(|e| e.to_string())?;
+			}
+			let target = std::fs::canonicalize(&blob).map_err(|e| e.to_string())?;
+			let same = std::fs::read(&target).map(|b| &b == v).unwrap_or(false);
+			if same && std::os::unix::fs::symlink(&target, &file).is_ok() {
+				continue;
+			}
+		}
+		std::fs::write(file, v).map_err(|e| e.to_string())?;
 	}
 	if !o.no_meta {
 		std::fs::write(root.join(format!("{}{}", o.meta_name, ts.comp.ext())), comp::compress(ts.tilejson.as_bytes(), ts.comp)).map_err(|e| e.to_string())?;
